@@ -578,6 +578,13 @@ def _r4(chk, repo, dist):
                 kinds.add("one")
             elif cn == "Samples" and many and ((len(rhs.args) >= 2 and pn(rhs.args[1]) == "self.geometry") or any(k.arg == "geometry" and pn(k.value) == "self.geometry" for k in rhs.keywords)):
                 kinds.add("many")
+                # several draws reach the collection exactly as _sample returned them ((dim, N), one draw per column): on every path the first argument
+                # is the value of the _sample call itself, not a re-oriented / re-shaped version of it
+                if rhs.args:
+                    for alt in ex.expand_all(rhs.args[0], dn if dn.kind != "return" else r):
+                        if not (isinstance(alt, ast.Call) and call_name(alt) == "self._sample"):
+                            problems.append(f"the block of draws handed to Samples can be `{unparse(alt)[:70]}`, not the (dim, N) block _sample returned "
+                                            f"(a transposition guessed from the shape is wrong whenever N == dim)")
             else:
                 problems.append(f"line {getattr(dn, 'lineno', 0)}: result `{unparse(rhs)[:60] if rhs is not None else '?'}` is not CUQIarray(., geometry=self.geometry) "
                                 f"for one draw / Samples(., self.geometry) for several")
